@@ -1,6 +1,9 @@
 /* C11 correspondence harness.
    Q <hexsrc> <hexkey>             -> has end keys-hex value-hex|NULL   (engine API)
-   U <hexsrc> <hexkey> <hexvalue>  -> hex of the updated source          (mmd_string_update_metavalue_for_key) */
+   U <hexsrc> <hexkey> <hexvalue>  -> hex of the updated source          (mmd_string_update_metavalue_for_key)
+   I <hexsrc> <hexkey> <hexvalue> <ext> <how>  -> hex of the engine's text after importing an outline (ext has EXT_PARSE_OPML or
+                                      EXT_PARSE_ITMZ) and then updating a metadata value on the same engine; how=0: import by
+                                      parsing, how=1: import through mmd_engine_convert_{opml,itmz}_to_text first        (C01) */
 #include "hcommon.h"
 #include <stdbool.h>
 #include "libMultiMarkdown.h"
@@ -11,8 +14,8 @@ int main(void) {
 	char * line;
 	H_POOL_INIT();
 	while ((line = h_readline(stdin))) {
-		char * f[5];
-		int nf = h_split(line, ' ', f, 5);
+		char * f[6];
+		int nf = h_split(line, ' ', f, 6);
 		if (nf < 3) { printf("?\n"); fflush(stdout); free(line); continue; }
 		char * src = h_unhex(f[1], NULL); char * key = h_unhex(f[2], NULL);
 		if (f[0][0] == 'Q') {
@@ -25,6 +28,25 @@ int main(void) {
 			if (val) h_puthex(stdout, val, strlen(val)); else printf("NULL");
 			printf("\n");
 			free(keys); mmd_engine_free(e, true);
+		} else if (f[0][0] == 'I' && nf >= 5) {
+			size_t n = 0;
+			char * raw = h_unhex(f[1], &n);
+			char * val = h_unhex(f[3], NULL);
+			unsigned long ext = strtoul(f[4], NULL, 10); int how = nf > 5 ? atoi(f[5]) : 0;
+			DString * d = d_string_new("");
+			d_string_append_c_array(d, raw, n);
+			mmd_engine * e = mmd_engine_create_with_dstring(d, ext);
+			if (how == 1) {
+				DString * t = (ext & EXT_PARSE_ITMZ) ? mmd_engine_convert_itmz_to_text(e) : mmd_engine_convert_opml_to_text(e);
+				d_string_append(t, val); d_string_prepend(t, val);
+				d_string_free(t, true);
+			} else {
+				mmd_engine_parse_string(e);
+			}
+			mmd_engine_update_metavalue_for_key(e, key, val);
+			h_puthex(stdout, d->str, d->currentStringLength); printf("\n");
+			mmd_engine_free(e, true);
+			free(val); free(raw);
 		} else if (nf >= 4) {
 			char * val = h_unhex(f[3], NULL);
 			char * out = mmd_string_update_metavalue_for_key(src, key, val);
